@@ -1,4 +1,6 @@
 -- Root of the library: importing every property module makes `lake build` re-check everything.
+import ExprModel.Props.C06
+import ExprModel.Props.C07
 import ExprModel.Props.C10
 import ExprModel.Props.C12
 import ExprModel.Props.C13
